@@ -87,7 +87,7 @@ class Case:
                     N=self.N, iterations=self.iterations,
                     dtype=str(self.y.dtype) if self.y is not None else None,
                     init=self.meta.get('init'), data=self.meta.get('data'),
-                    layout=self.meta.get('layout'),
+                    layout=self.meta.get('layout'), defaults=self.meta.get('defaults'),
                     scale_exp=self.meta.get('scale_exp'), opts=o,
                     trainer=self.trainer_kwargs or None)
 
@@ -110,8 +110,50 @@ def make_trainer(case):
     return trainer_cls(case.kind)(**case.trainer_kwargs)
 
 
+# defaults of the fit / fit_predict signatures as documented (hard-coded on
+# purpose: the reference, not read from the code under test)
+DOCUMENTED_DEFAULTS = {
+    'cacgmm': dict(weight_constant_axis=(-1,), hermitize=True, covariance_norm='eigenvalue',
+                   affiliation_eps=1e-10, eigenvalue_floor=1e-10),
+    'cwmm': dict(weight_constant_axis=(-1,), affiliation_eps=0),
+    'cbmm': dict(weight_constant_axis=(-1,), affiliation_eps=0),
+    # (GMMTrainer.fit and .fit_predict document different defaults for
+    # weight_constant_axis: never left out)
+    'gmm': dict(covariance_type='full'),
+    'vmfmm': dict(weight_constant_axis=(-1,), min_concentration=1e-10, max_concentration=500),
+    'gcacgmm': dict(hermitize=True, covariance_norm='eigenvalue', eigenvalue_floor=1e-10,
+                    covariance_type='spherical', affiliation_eps=1e-10,
+                    weight_constant_axis=(-1,), spatial_weight=1.0, spectral_weight=1.0,
+                    inline_permutation_alignment=False),
+    'vmfcacgmm': dict(min_concentration=1e-10, max_concentration=500, hermitize=True,
+                      covariance_norm='eigenvalue', eigenvalue_floor=1e-10,
+                      affiliation_eps=1e-10, weight_constant_axis=(-1,), spatial_weight=1.0,
+                      spectral_weight=1.0, inline_permutation_alignment=False),
+}
+
+
+def _is_default(kind, key, value):
+    doc = DOCUMENTED_DEFAULTS.get(kind, {})
+    if key not in doc:
+        return False
+    dv = doc[key]
+    if isinstance(value, (list, tuple)) or isinstance(dv, tuple):
+        try:
+            return tuple(value) == tuple(dv)
+        except TypeError:
+            return False
+    return type(value) is type(dv) and value == dv or \
+        (isinstance(value, (int, float)) and isinstance(dv, (int, float))
+         and not isinstance(value, bool) and not isinstance(dv, bool) and value == dv)
+
+
 def _fit_args(case, init, iterations):
     kw = dict(case.opts)
+    # options the case leaves to the library's documented default (the harness
+    # keeps the explicit value in case.opts for its oracles)
+    for key in getattr(case, 'omit', ()):
+        if key in kw and _is_default(case.kind, key, kw[key]):
+            del kw[key]
     kw['iterations'] = case.iterations if iterations is None else iterations
     if init is None:
         init = case.init
@@ -626,6 +668,22 @@ def draw_case(d, kinds=None, *, degenerate=False, general_position=False,
                 o['inline_permutation_aligner'] = pa.GreedyPermutationAlignment(
                     similarity_metric=which.split('-')[1])
             case.meta['aligner'] = which
+    # documented defaults: in one case of three some options are set to their
+    # documented default value and then *not passed* to the library
+    case.omit = set()
+    if options and int(aux.integers(0, 3)) == 0:
+        for key, default in DOCUMENTED_DEFAULTS.get(kind, {}).items():
+            if int(aux.integers(0, 2)):
+                continue
+            if key == 'weight_constant_axis' and (
+                    want_aligner or 'inline_permutation_aligner' in o):
+                continue
+            if stable_only and key in ('spatial_weight', 'spectral_weight',
+                                       'inline_permutation_alignment'):
+                continue
+            o[key] = default
+            case.omit.add(key)
+        case.meta['defaults'] = sorted(case.omit)
     case.opts = o
     return case
 
